@@ -202,3 +202,41 @@ func SortStrings(x []string) {
 		}
 	}
 }
+
+// ScanSentinel models fmt.Sscanf(line, "sentinel %x", dst) for a line that starts with
+// "sentinel " (the only use in the repository): white space is skipped, then one or more
+// hex digits are read; more than 64 bits of value is an error. ASCII input.
+func ScanSentinel(line string, dst *uint64) (int, error) {
+	i := len("sentinel")
+	isSp := func(c byte) bool { return c == ' ' || c == '\t' || c == '\r' || c == '\v' || c == '\f' }
+	for i < len(line) && isSp(line[i]) {
+		i++
+	}
+	start := i
+	var v uint64
+	for i < len(line) {
+		c := line[i]
+		var d uint64
+		switch {
+		case c >= '0' && c <= '9':
+			d = uint64(c - '0')
+		case c >= 'a' && c <= 'f':
+			d = uint64(c-'a') + 10
+		case c >= 'A' && c <= 'F':
+			d = uint64(c-'A') + 10
+		default:
+			goto done
+		}
+		if v>>60 != 0 {
+			return 0, &StrError{"integer overflow"}
+		}
+		v = v<<4 | d
+		i++
+	}
+done:
+	if i == start {
+		return 0, &StrError{"expected integer"}
+	}
+	*dst = v
+	return 1, nil
+}
